@@ -80,6 +80,8 @@ var (
 	wExtras              bool
 	wCrashPoint          func()
 	wTwoSets             bool
+	wLeafPkgs            bool
+	wKindMask            int
 )
 
 func wReset(nPkg, nDeps, nReg int) {
@@ -104,6 +106,8 @@ func wReset(nPkg, nDeps, nReg int) {
 	wWarnOn = false
 	wWarns = map[wFinderKey]bool{}
 	wTwoSets = false
+	wFaults = false
+	wLeafPkgs, wKindMask = false, 0
 }
 
 // wResetBuild: a second build of the same world (C13): counters and the target directory start
@@ -139,6 +143,10 @@ func wDepsOf(k wFinderKey) []wDep {
 		return d
 	}
 	var out []wDep
+	if wLeafPkgs && k.node.pkg > 0 { // only package 0 has dependencies
+		wDeps[k] = nil
+		return nil
+	}
 	for i := 0; i < wNDeps; i++ {
 		d := wDep{}
 		nk := 2
@@ -148,7 +156,17 @@ func wDepsOf(k wFinderKey) []wDep {
 		if wAllowRegistry && wNReg > 0 {
 			nk = 4
 		}
-		d.kind = verif.Choose("dep.kind", nk)
+		if wKindMask != 0 { // only the dependency kinds in the mask (bit k = kind k)
+			var ks []int
+			for kk := 0; kk < 4; kk++ {
+				if wKindMask&(1<<uint(kk)) != 0 {
+					ks = append(ks, kk)
+				}
+			}
+			d.kind = ks[verif.Choose("dep.kind", len(ks))]
+		} else {
+			d.kind = verif.Choose("dep.kind", nk)
+		}
 		d.finder = verif.Choose("dep.finder", wNFinders)
 		switch d.kind {
 		case 1:
@@ -192,9 +210,20 @@ var wWarnOn bool
 var wWarns map[wFinderKey]bool
 
 var wSubPathSeen string
+var wDeclaredLoc int
 
 func (f wFinder) FindDependencies(fsys fs.FS, subPath string, deps *Dependencies) Diagnostics {
 	wSubPathSeen = subPath
+	// what a finder reports is a function of the package, the sub-path it is asked to analyse and its
+	// kind (on a correct builder that sub-path is the one it was declared for)
+	at := f.node
+	wDeclaredLoc = f.node.loc
+	for l, s := range wLocs {
+		if s == subPath {
+			at.loc = l
+		}
+	}
+	f.node = at
 	k := wFinderKey{f.node, f.kind}
 	wAnalysed[k]++
 	if wWarnOn {
@@ -212,7 +241,7 @@ func (f wFinder) FindDependencies(fsys fs.FS, subPath string, deps *Dependencies
 
 func wFindDeps(f wFinder, k wFinderKey, deps *Dependencies, out Diagnostics) Diagnostics {
 	// the finder handed over for a location is called for that location
-	verif.Assert("C08-finder-runs-at-the-location-it-was-declared-for", wSubPathSeen == wLocs[f.node.loc])
+	verif.Assert("C08-finder-runs-at-the-location-it-was-declared-for", wSubPathSeen == wLocs[wDeclaredLoc])
 	for _, d := range wDepsOf(k) {
 		switch d.kind {
 		case 1:
@@ -318,6 +347,7 @@ func (wFetcher) FetchSourcePackage(ctx context.Context, sourceType string, u *ur
 		envWriteFile(targetDir+"/.terraformignore", 0644, 1000, "!.terraform/\n")
 		envMkdir(targetDir+"/.terraform", 0755, 1000)
 		envWriteFile(targetDir+"/.terraform/environment", 0644, 1000, "default")
+		envWriteFile(targetDir+"/release..notes", 0644, 1000, "n") // a name that merely contains two dots
 	}
 	m, ok := wMeta[i]
 	if !ok {
